@@ -87,13 +87,14 @@ func (m rcModel) rows() []uint64 {
 }
 
 type rcRun struct {
-	fit     bool // cache holds exactly as many rows as the row universe
-	tiny    bool // cache holds at most 2 rows: only reported counts are checked (C12 is silent about rows a cache forgot)
-	t       *testing.T
-	res     *rcResult
-	seq     []string
-	seen    map[string]bool
-	nontriv bool
+	fit        bool // cache of 3 entries, rows rcRows[:3] preferred
+	overflowed bool // fit flavour: more than 3 rows were non-empty at some point of the sequence
+	tiny       bool // cache holds at most 2 rows: only reported counts are checked (C12 is silent about rows a cache forgot)
+	t          *testing.T
+	res        *rcResult
+	seq        []string
+	seen       map[string]bool
+	nontriv    bool
 }
 
 func (rr *rcRun) fail(props []string, sig, what string) {
@@ -147,7 +148,11 @@ func (rr *rcRun) checkSetFragment(f *fragment, m rcModel, lastOp string) {
 				continue
 			}
 			if !reflect.DeepEqual(got, want) {
-				rr.fail([]string{"C07", "C28"}, "row-read-after:"+lastOp, fmt.Sprintf("row(%d) = %v, model %v (pass %d)", r, got, want, pass))
+				props := []string{"C07", "C28"}
+				if strings.HasPrefix(lastOp, "mutex-") {
+					props = append(props, "C13") // a column read in a row it left: two rows for one column
+				}
+				rr.fail(props, "row-read-after:"+lastOp, fmt.Sprintf("row(%d) = %v, model %v (pass %d)", r, got, want, pass))
 			}
 		}
 	}
@@ -177,6 +182,9 @@ func (rr *rcRun) checkSetFragment(f *fragment, m rcModel, lastOp string) {
 	}
 	// rows / minRow / maxRow
 	wantRows := m.rows()
+	if rr.fit && len(wantRows) > 3 {
+		rr.overflowed = true // the history exceeded the cache once: it may have forgotten rows for good
+	}
 	if got := f.rows(0); !(len(got) == 0 && len(wantRows) == 0) && !reflect.DeepEqual(got, wantRows) {
 		rr.fail([]string{"C16"}, "rows-after:"+lastOp, fmt.Sprintf("rows(0) = %v, model %v", got, wantRows))
 	}
@@ -233,7 +241,7 @@ func (rr *rcRun) checkSetFragment(f *fragment, m rcModel, lastOp string) {
 			}
 		}
 		for _, r := range wantRows {
-			if rr.tiny {
+			if rr.tiny || (rr.fit && rr.overflowed) {
 				break
 			}
 			found := false
@@ -281,6 +289,9 @@ func (rr *rcRun) checkTopN(f *fragment, m rcModel, lastOp string) {
 	}
 	f.RecalculateCache()
 	want := m.rows()
+	if rr.fit && (rr.overflowed || len(want) > 3) {
+		return // other operations (setRow, imports) filled more rows than the cache holds: C12's ranking clause does not apply
+	}
 	for n := 1; n <= len(want)+1; n++ {
 		pairs, _ := f.top(topOptions{N: n})
 		exp := n
@@ -318,7 +329,7 @@ func (rr *rcRun) runSetSequence(rng *rand.Rand, cacheType string, shard uint64, 
 	} else if rr.fit {
 		// a cache with exactly as many entries as there are rows: every row fits,
 		// so every TopN clause of C12 applies, and the cache is full
-		n := uint32(len(rcRows))
+		n := uint32(3) // the fit flavour writes rows rcRows[:3] only
 		f.CacheSize = n
 		switch cacheType {
 		case CacheTypeRanked:
@@ -332,7 +343,11 @@ func (rr *rcRun) runSetSequence(rng *rand.Rand, cacheType string, shard uint64, 
 	base := shard * ShardWidth
 	rr.seq = []string{fmt.Sprintf("fragment(shard=%d,cache=%s,tiny=%v,fit=%v,MaxOpN=%d)", shard, cacheType, rr.tiny, rr.fit, f.MaxOpN)}
 	rr.nontriv = false
+	rr.overflowed = false
 	pick := func() (uint64, uint64) {
+		if rr.fit {
+			return rcRows[rng.Intn(3)], base + rcCols[rng.Intn(len(rcCols))]
+		}
 		return rcRows[rng.Intn(len(rcRows))], base + rcCols[rng.Intn(len(rcCols))]
 	}
 	for s := 0; s < steps; s++ {
@@ -561,6 +576,20 @@ func (rr *rcRun) runMutexSequence(rng *rand.Rand, isBool bool, steps int) {
 				rr.fail([]string{"C13"}, "mutex-stale", fmt.Sprintf("column %d holds %v, model empty (after %s)", c, set, op))
 			}
 		}
+		// every other read path (cached rows, enumeration, row lists, block checksums,
+		// TopN counts) must agree with the same model: a column that moved to another
+		// row must disappear from the row it left, in every view of the fragment
+		mm := rcModel{}
+		for c, ok := range has {
+			if ok {
+				mm.set(last[c], c)
+			}
+		}
+		opName := op
+		if i := strings.Index(opName, "("); i > 0 {
+			opName = "mutex-" + opName[:i]
+		}
+		rr.checkSetFragment(f, mm, opName)
 	}
 }
 
@@ -608,6 +637,24 @@ func (rr *rcRun) runBSISequence(rng *rand.Rand, steps int) {
 			}
 			if err := f.importValue(cs, vs, depth, false); err != nil {
 				rr.fail([]string{"C14"}, "importValue-error", err.Error())
+			}
+			if rng.Intn(3) == 0 {
+				// a client retry: the same batch again, through the large-write path,
+				// changing nothing (later writes must still reach the file: C05)
+				f.MaxOpN = 1
+				rr.seq[len(rr.seq)-1] += "[+retry,large]"
+				last := map[uint64]int64{}
+				for i := range cs {
+					last[cs[i]] = vs[i]
+				}
+				var rcs []uint64
+				var rvs []int64
+				for c, v := range last {
+					rcs, rvs = append(rcs, c), append(rvs, v)
+				}
+				if err := f.importValue(rcs, rvs, depth, false); err != nil {
+					rr.fail([]string{"C14"}, "importValue-error", err.Error())
+				}
 			}
 			f.MaxOpN = 200
 			op = "importValue"
